@@ -527,6 +527,9 @@ def run(ctx: Check, tree: Tree) -> None:
     ctx.section(check_create, ctx, tree)
     ctx.section(check_backsubstitution, ctx, tree)
     ctx.section(check_same_topology, ctx, tree)
+    from .c02 import check_amplitude_stored
+
+    ctx.section(check_amplitude_stored, ctx, tree)  # the amplitude symbols of the intensity get their definition
     # the builder asks for the angle symbols of children[0]; the adapter names what it defines after
     # the helicity state chosen with is_opposite_helicity_state: both must be the same convention
     from .c04 import check_normalised
